@@ -102,7 +102,11 @@ fn fixed_point(ctx: &mut Ctx, rng: &mut Rng) {
     let n = rng.range(2, 7);
     let prog = gen_pp::single_file(rng, o, n);
     let rendered = gen_pp::render(&prog, rng);
-    let cfg = Setup::cfg_with_predefs(&prog, Cfg::default());
+    // both runs with the same flags; with strip_comments the first output has no comment left to strip
+    let cfg = Setup::cfg_with_predefs(&prog, Cfg { strip_comments: rng.chance(1, 3), ..Cfg::default() });
+    if cfg.strip_comments {
+        ctx.count("fixed_point_inputs_strip_comments", 1);
+    }
     let src = &rendered.files[0].1;
     let path = Path::new("top.sv");
     let first = match pp_str(src, path, &cfg) {
@@ -123,7 +127,7 @@ fn fixed_point(ctx: &mut Ctx, rng: &mut Rng) {
         return;
     }
     ctx.count("fixed_point_inputs", 1);
-    let witness = |d: &str| Obj::new().s("source", src).s("first_output", &first).s("predefs", &format!("{:?}", prog.predefs)).s("detail", d).done();
+    let witness = |d: &str| Obj::new().s("source", src).s("first_output", &first).s("predefs", &format!("{:?}", prog.predefs)).b("strip_comments", cfg.strip_comments).s("detail", d).done();
     match pp_str(&first, path, &cfg) {
         Err(_) => ctx.inconclusive("lib_panic"),
         Ok(Err(e)) => {
